@@ -76,6 +76,10 @@ def cases(tier, seed):
             k = rng.randint(1, d)
             c['modes'] = rng.sample(range(d), k)
             c['L'] = [rng.choice((1, 2, 3, 5)) for _ in range(k)]
+            if i % 3 == 0:
+                # the same mode listed more than once: the matrices are applied in sequence (the second one acts on the result of the first)
+                c['modes'] = c['modes'] + [rng.choice(c['modes'])]
+                c['L'] = c['L'] + [rng.choice((1, 2, 3))]
         cs.append(c)
     return cs
 
@@ -234,7 +238,11 @@ def run_misc(case, ctx, g):
     elif op in ('mprod1', 'mprodL'):
         x = gens.make_tt(N, R, dt, case['vals'], g)
         modes, Ls = case['modes'], case['L']
-        mats = [gens.values([l, N[m]], dt, 'int', g) for l, m in zip(Ls, modes)]
+        cur = list(N)
+        mats = []
+        for l, m in zip(Ls, modes):
+            mats.append(gens.values([l, cur[m]], dt, 'int', g))      # column count = CURRENT size of the mode (a repeated mode has changed size)
+            cur[m] = l
         ref = dn.D(x)
         for m, A in zip(modes, mats):
             ref = torch.tensordot(ref, dn.to_up(A), dims=([m], [1])).movedim(-1, m)
